@@ -77,6 +77,29 @@ func c03PipeN(m, per int) *gen.Graph {
 	return g
 }
 
+// c03Burst: K tokens (a fork with K flows into ONE task) reach a parallel gateway with a single incoming flow
+// together: every token is a complete set of its own, so the gateway releases K times whatever is queued in its
+// inbox when it looks (start -> fork -> mid x K -> pg (1 -> m) -> d1..dm -> end).
+func c03Burst(k, m int) *gen.Graph {
+	g := gen.NewGraph("c03b")
+	s := g.Add(gen.Start, "start", "")
+	f := g.Add(gen.And, "fork", "")
+	mid := g.Add(gen.Task, "mid", "")
+	pg := g.Add(gen.And, "pg", "")
+	g.Connect(s, f, nil)
+	for i := 0; i < k; i++ {
+		g.Connect(f, mid, nil)
+	}
+	g.Connect(mid, pg, nil)
+	for j := 1; j <= m; j++ {
+		d := g.Add(gen.Task, fmt.Sprintf("d%d", j), "")
+		e := g.Add(gen.End, fmt.Sprintf("e%d", j), "")
+		g.Connect(pg, d, nil)
+		g.Connect(d, e, nil)
+	}
+	return g
+}
+
 func c03Cases(tier string, seed uint64) []fw.Case {
 	var cs []fw.Case
 	// pipelined arrivals: every order in which the four producer tasks finish, downstream tasks answered as they appear
@@ -150,6 +173,19 @@ func c03Cases(tier string, seed uint64) []fw.Case {
 			}
 			sc := step.Case{Name: fmt.Sprintf("pipe3-M%d-%v", m, perm), G: g, Order: order, Family: "pipelined"}
 			cs = append(cs, fw.MkCase("stepwise", &sc))
+		}
+	}
+	// bursts: several complete sets in the gateway's inbox at once
+	for _, k := range []int{3, 6} {
+		for m := 1; m <= 2; m++ {
+			reps := 6
+			if tier == "thorough" {
+				reps = 60
+			}
+			for _, hooks := range []float64{0, 0.3} {
+				sc := step.Case{Name: fmt.Sprintf("burst-K%d-M%d-h%v", k, m, hooks), G: c03Burst(k, m), Storm: true, Hooks: hooks, Reps: reps, Family: "burst"}
+				cs = append(cs, fw.MkCase("storm", &sc))
+			}
 		}
 	}
 	for n := 1; n <= 4; n++ {
